@@ -83,7 +83,7 @@ DEFAULT_SCHEMAS = "[default_1min]\npattern = .*\nretentions = 60s:1d\n"
 
 
 def boot(program='carbon-cache', conf=None, files=None, standins=(), database='verifmem',
-         instance=None, import_service=True, instance_conf=None):
+         instance=None, import_service=True, instance_conf=None, extra_sections=None):
   """Boot `program` ('carbon-cache' | 'carbon-relay' | 'carbon-aggregator' | 'carbon-aggregator-cache').
 
   conf:  dict of carbon.conf keys for the program's section.
@@ -120,6 +120,8 @@ def boot(program='carbon-cache', conf=None, files=None, standins=(), database='v
   secs = [(section, c)]
   if instance is not None and instance_conf:
     secs.append(('%s:%s' % (section, instance), dict(instance_conf)))     # per-instance overrides, as in carbon.conf.example
+  for name, kv in (extra_sections or []):          # e.g. the section of another instance: must not leak into this one
+    secs.append((name, dict(kv)))
   text = _ini(secs)
   with open(os.path.join(conf_dir, 'carbon.conf'), 'w') as f:
     f.write(text)
